@@ -570,4 +570,185 @@ theorem oneByte_tables_no_surrogate :
     noSurrogate PDF_DOC_ENCODING = true := by
   refine ⟨?_, ?_, ?_, ?_, ?_⟩ <;> decide +kernel
 
+/-! ## get_pages: size_hint and collect -/
+
+/-- a property of iterator states that the iterator's own transitions preserve -/
+structure IterInv (cls : Obj → Cls) (Inv : Option (List Obj) → List (List Obj) → Prop) : Prop where
+  skip : ∀ kid rest stk, Inv (some (kid :: rest)) stk → Inv (some rest) stk
+  down : ∀ kid rest stk ks, Inv (some (kid :: rest)) stk → cls kid = .pages ks →
+    stk.length < PAGE_TREE_DEPTH_LIMIT → Inv ks (if rest.isEmpty then stk else rest :: stk)
+  popS : ∀ top st, Inv (some []) (top :: st) → Inv (some top) st
+  popN : ∀ top st, Inv none (top :: st) → Inv (some top) st
+
+theorem satAdd1_le (n : Nat) : satAdd1 n ≤ n + 1 := by
+  unfold satAdd1; split
+  · omega
+  · rename_i h; simp [USIZE] at *; omega
+
+theorem allocCheck_ok (esz memMax cap C : Nat) (hc : cap ≤ C) (hmem : C * esz ≤ memMax) (hM : memMax ≤ ISIZE_MAX) :
+    allocCheck esz memMax cap = .ok () := by
+  have : cap * esz ≤ C * esz := Nat.mul_le_mul_right _ hc
+  unfold allocCheck
+  rw [if_neg (by omega), if_neg (by omega)]
+
+theorem afterYield_ok (hint : Option (List Obj) → List (List Obj) → Nat) (esz memMax H L : Nat)
+    (k : Option (List Obj)) (stk : List (List Obj)) (len cap : Nat)
+    (hH : hint k stk ≤ H) (hmem : (2 * L + H + 4) * esz ≤ memMax) (hM : memMax ≤ ISIZE_MAX) (hesz : 1 ≤ esz)
+    (hlen : len ≤ L) (hcap : cap ≤ 2 * L + H + 4) :
+    ∃ cap', afterYield hint esz memMax k stk len cap = .ok cap' ∧ cap' ≤ 2 * L + H + 4 := by
+  have hC : 2 * L + H + 4 ≤ ISIZE_MAX := by
+    have : (2 * L + H + 4) * 1 ≤ (2 * L + H + 4) * esz := Nat.mul_le_mul_left _ hesz
+    omega
+  have hU : ISIZE_MAX < USIZE := by decide
+  have hs := satAdd1_le (hint k stk)
+  unfold afterYield
+  split
+  · rw [if_neg (by omega)]
+    unfold growCap
+    split
+    · have hc : max 4 (satAdd1 (hint k stk)) ≤ 2 * L + H + 4 := by omega
+      dsimp only
+      rw [allocCheck_ok esz memMax _ _ hc hmem hM]
+      exact ⟨_, rfl, hc⟩
+    · rw [if_neg (by omega)]
+      have hc : max (max (2 * cap) (len + satAdd1 (hint k stk))) 4 ≤ 2 * L + H + 4 := by
+        rename_i h1 h2
+        have : len = cap := by omega
+        omega
+      dsimp only
+      rw [allocCheck_ok esz memMax _ _ hc hmem hM]
+      exact ⟨_, rfl, hc⟩
+  · exact ⟨cap, rfl, hcap⟩
+
+/-- **`get_pages` / `page_iter().collect()`, partial**: if on every iterator state the run can
+reach (any transition-closed `Inv`) `size_hint` stays below a bound `H` for which the vector's
+final capacity still fits the memory the process can obtain, the collection neither panics nor
+aborts. (Full statement false: `getPages_*_witness` — `Count` is attacker-chosen.) -/
+theorem runCap_partial (cls : Obj → Cls) (hint : Option (List Obj) → List (List Obj) → Nat)
+    (esz memMax H L : Nat) (Inv : Option (List Obj) → List (List Obj) → Prop) (hinv : IterInv cls Inv)
+    (hH : ∀ k s, Inv k s → hint k s ≤ H)
+    (hmem : (2 * L + H + 4) * esz ≤ memMax) (hM : memMax ≤ ISIZE_MAX) (hesz : 1 ≤ esz) :
+    ∀ (k : Option (List Obj)) (stk : List (List Obj)) (lim len cap : Nat),
+      Inv k stk → len + lim ≤ L → cap ≤ 2 * L + H + 4 →
+      ∀ s, runCap cls hint esz memMax k stk lim len cap ≠ .panic s := by
+  intro k stk lim len cap
+  fun_induction runCap cls hint esz memMax k stk lim len cap with
+  | case1 kid rest stack len cap => intro _ _ _ s; simp
+  | case2 kid rest stack limit len cap h hc ih =>
+    intro hI hl hcp s; exact ih (hinv.skip _ _ _ hI) (by omega) hcp s
+  | case3 kid rest stack limit len cap h id hc s' hay =>
+    intro hI hl hcp s
+    obtain ⟨c', h1, _⟩ := afterYield_ok hint esz memMax H L (some rest) stack len cap
+      (hH _ _ (hinv.skip _ _ _ hI)) hmem hM hesz (by omega) hcp
+    rw [h1] at hay; cases hay
+  | case4 kid rest stack limit len cap h id hc e hay =>
+    intro _ _ _ s; simp
+  | case5 kid rest stack limit len cap h id hc cap' hay l hr ih =>
+    intro _ _ _ s; simp
+  | case6 kid rest stack limit len cap h id hc cap' hay e hr ih =>
+    intro _ _ _ s; simp
+  | case7 kid rest stack limit len cap h id hc cap' hay s' hr ih =>
+    intro hI hl hcp s
+    obtain ⟨c', h1, h2⟩ := afterYield_ok hint esz memMax H L (some rest) stack len cap
+      (hH _ _ (hinv.skip _ _ _ hI)) hmem hM hesz (by omega) hcp
+    rw [h1] at hay; cases hay
+    exact absurd hr (ih (hinv.skip _ _ _ hI) (by omega) h2 s')
+  | case8 kid rest stack limit len cap h ks hc hd ih =>
+    intro hI hl hcp s; exact ih (hinv.down _ _ _ _ hI hc hd) (by omega) hcp s
+  | case9 kid rest stack limit len cap h ks hc hd ih =>
+    intro hI hl hcp s; exact ih (hinv.skip _ _ _ hI) (by omega) hcp s
+  | case10 top st limit len cap ih => intro hI hl hcp s; exact ih (hinv.popS _ _ hI) hl hcp s
+  | case11 top st limit len cap ih => intro hI hl hcp s; exact ih (hinv.popN _ _ hI) hl hcp s
+  | case12 l len cap => intro _ _ _ s; simp
+  | case13 l len cap => intro _ _ _ s; simp
+
+/-- when the collection succeeds, the collected ids are exactly C12's enumeration: the capacity
+bookkeeping never changes which pages are found -/
+theorem runCap_ok_eq_run (cls : Obj → Cls) (hint : Option (List Obj) → List (List Obj) → Nat) (esz memMax : Nat) :
+    ∀ (k : Option (List Obj)) (stk : List (List Obj)) (lim len cap : Nat) (l : List ObjId),
+      runCap cls hint esz memMax k stk lim len cap = .ok l → l = run cls k stk lim := by
+  intro k stk lim len cap
+  fun_induction runCap cls hint esz memMax k stk lim len cap with
+  | case1 kid rest stack len cap => intro l h; rw [run]; simp at h; simp [h]
+  | case2 kid rest stack limit len cap h hc ih => intro l hl; rw [run]; simp [h, hc]; exact ih l hl
+  | case3 kid rest stack limit len cap h id hc s' hay => intro l hl; simp at hl
+  | case4 kid rest stack limit len cap h id hc e hay => intro l hl; simp at hl
+  | case5 kid rest stack limit len cap h id hc cap' hay l' hr ih =>
+    intro l hl; rw [run]; simp [h, hc]; simp at hl; subst hl; simp; exact ih l' hr
+  | case6 kid rest stack limit len cap h id hc cap' hay e hr ih => intro l hl; simp at hl
+  | case7 kid rest stack limit len cap h id hc cap' hay s' hr ih => intro l hl; simp at hl
+  | case8 kid rest stack limit len cap h ks hc hd ih =>
+    intro l hl; rw [run]; simp [h, hc, hd]; have := ih l hl; simpa using this
+  | case9 kid rest stack limit len cap h ks hc hd ih => intro l hl; rw [run]; simp [h, hc, hd]; exact ih l hl
+  | case10 top st limit len cap ih => intro l hl; rw [run]; exact ih l hl
+  | case11 top st limit len cap ih => intro l hl; rw [run]; exact ih l hl
+  | case12 l len cap => intro l' hl; rw [run]; simp at hl; simp [hl]
+  | case13 l len cap => intro l' hl; rw [run]; simp at hl; simp [hl]
+
+/-- `get_pages`, when it returns, returns C12's `page_iter` enumeration -/
+theorem getPages_ok_eq_pageIter (memMax : Nat) (trailer : Dict) (os : Objects) (l : List ObjId)
+    (h : getPages memMax trailer os = .ok l) : l = pageIter trailer os := by
+  unfold getPages collectPages at h
+  unfold pageIter
+  simp only [pageRoot] at h ⊢
+  split at h
+  · rename_i pid hp; simp only [hp]; exact runCap_ok_eq_run _ _ _ _ _ _ _ _ _ _ h
+  · rename_i hp; simp only [hp]; simp at h; exact h
+
+/-- root `Kids` = [page 3, `Pages` node 20, 21, 22 with the given `Count`s] -/
+def countDoc (c1 c2 c3 : Int) : Objects :=
+  [((1, 0), .dict [(PAGES, .ref 2 0)]),
+   ((2, 0), .dict [(TYPE, .name PAGES), (KIDS, .arr [.ref 3 0, .ref 20 0, .ref 21 0, .ref 22 0])]),
+   ((3, 0), .dict [(TYPE, .name PAGE)]),
+   ((20, 0), .dict [(TYPE, .name PAGES), (KIDS, .arr []), (K_Count, .int c1)]),
+   ((21, 0), .dict [(TYPE, .name PAGES), (KIDS, .arr []), (K_Count, .int c2)]),
+   ((22, 0), .dict [(TYPE, .name PAGES), (KIDS, .arr []), (K_Count, .int c3)])]
+
+theorem getPages_first_yield (memMax : Nat) (c1 c2 c3 : Int) (s : String)
+    (h : afterYield (sizeHintRaw (countDoc c1 c2 c3)) 12 memMax (some [.ref 20 0, .ref 21 0, .ref 22 0]) [] 0 0 = .panic s) :
+    getPages memMax catRef (countDoc c1 c2 c3) = .panic s := by
+  have hroot : pageRoot catRef (countDoc c1 c2 c3) = some (2, 0) := by rfl
+  have hk : kidsOf (countDoc c1 c2 c3) (2, 0) = some [.ref 3 0, .ref 20 0, .ref 21 0, .ref 22 0] := by rfl
+  have hc : classify (countDoc c1 c2 c3) (.ref 3 0) = .page (3, 0) := by rfl
+  have hl : (countDoc c1 c2 c3).length = 6 := rfl
+  unfold getPages collectPages
+  rw [hroot]; simp only []; rw [hk, hl, runCap]
+  simp [hc, h]
+
+/-- **F-C13-f**: three `Pages` nodes with `Count` = i64::MAX, i64::MAX, 2: the checked `usize` sum in
+`size_hint` overflows -/
+theorem getPages_sum_overflow_witness (memMax : Nat) :
+    getPages memMax catRef (countDoc (2^63 - 1) (2^63 - 1) 2) = .panic S_SUM := by
+  apply getPages_first_yield
+  have hh : sizeHintRaw (countDoc (2^63 - 1) (2^63 - 1) 2) (some [.ref 20 0, .ref 21 0, .ref 22 0]) [] = 2 ^ 64 := by decide
+  unfold afterYield
+  simp only [hh, true_or, if_true]
+  rw [if_pos (by decide)]
+
+/-- **F-C13-f2**: `Count` = 2^62: `Vec::with_capacity(Count + 1)` exceeds `isize::MAX` bytes -/
+theorem getPages_capacity_witness (memMax : Nat) :
+    getPages memMax catRef (countDoc (2^62) 0 0) = .panic S_CAP := by
+  apply getPages_first_yield
+  have hh : sizeHintRaw (countDoc (2^62) 0 0) (some [.ref 20 0, .ref 21 0, .ref 22 0]) [] = 2 ^ 62 := by decide
+  unfold afterYield
+  simp only [hh, true_or, if_true]
+  rw [if_neg (by decide)]
+  unfold growCap allocCheck
+  simp only [if_true]
+  have : max 4 (satAdd1 (2 ^ 62)) = 2 ^ 62 + 1 := by decide
+  rw [this, if_pos (by decide)]
+
+/-- **F-C13-f3**: `Count` = 2^40: a 12 TB allocation; with less memory than that the process aborts -/
+theorem getPages_alloc_witness (memMax : Nat) (h : memMax < 2 ^ 40 * 12) :
+    getPages memMax catRef (countDoc (2^40) 0 0) = .panic S_ALLOC := by
+  apply getPages_first_yield
+  have hh : sizeHintRaw (countDoc (2^40) 0 0) (some [.ref 20 0, .ref 21 0, .ref 22 0]) [] = 2 ^ 40 := by decide
+  unfold afterYield
+  simp only [hh, true_or, if_true]
+  rw [if_neg (by decide)]
+  unfold growCap allocCheck
+  simp only [if_true]
+  have : max 4 (satAdd1 (2 ^ 40)) = 2 ^ 40 + 1 := by decide
+  rw [this, if_neg (by decide), if_pos (by omega)]
+
 end Lopdf
